@@ -19,7 +19,8 @@ Part 2: the functional layer (Model/C04Key, C04Classify, C04Sort).
   * `subjobs_write_disjoint`, `subjobs_order_irrelevant`   bucket ranges are disjoint; the arrays do
                                   not depend on the order in which the sub-jobs run
   * `distribution_is_partition`, `bucket_bounds_cover`, `equal_bucket_is_splitter`, `classification_monotone`,
-    `classification_lower_bound`   classification / distribution (OPEN: `build_isBST_statement`)
+    `classification_lower_bound`, `builder_writes_search_tree`, `classification_monotone_build`   classification /
+    distribution (OPEN: `index_ok_statement` beyond depth 10)
   * `sample_sort_step_lemma`      buckets sorted with exact inner LCPs ⇒ after `ps5_sample_sort_lcp` the whole
                                   range is sorted with exact LCPs
   * OPEN: the end-to-end theorem about `sortM` (statement below)
@@ -30,6 +31,7 @@ import TlxVerif.Proofs.C04Assemble
 import TlxVerif.Proofs.C04Step
 import TlxVerif.Proofs.C04Classify
 import TlxVerif.Proofs.C04Tree
+import TlxVerif.Proofs.C04Index
 import TlxVerif.Model.C04Sort
 namespace TlxVerif.C04
 
@@ -478,27 +480,44 @@ into bucket `2·(number of splitters below the key)`, `+1` if it equals the next
 bucket id therefore means a strictly smaller key — the order hypothesis of the step lemma. -/
 theorem classification_monotone {c : Classifier} {useCalc : Bool} {S : List Key}
     (hbst : IsBST c.tree c.treebits 1 S) (hsorted : S.Pairwise (fun a b => a ≤ b))
-    (hspl : ∀ i, splOf c useCalc i = S[i]?) {k k' : Key} {b b' : Nat}
+    (hspl : ∀ i, i < numSplitters c.treebits → splOf c useCalc i = S[i]?) {k k' : Key} {b b' : Nat}
     (h : c.findBkt useCalc k = some b) (h' : c.findBkt useCalc k' = some b') (hlt : b < b') : k < k' :=
   findBkt_lt hbst hsorted hspl h h' hlt
 
 /-- the descent itself: it ends in the leaf numbered by the lower bound of the key -/
 theorem classification_lower_bound {c : Classifier} {useCalc : Bool} {S : List Key}
-    (hbst : IsBST c.tree c.treebits 1 S) (hspl : ∀ i, splOf c useCalc i = S[i]?) (k : Key) :
-    c.findBkt useCalc k = some (2 * lowerBound S k + (if S[lowerBound S k]? = some k then 1 else 0)) :=
+    (hbst : IsBST c.tree c.treebits 1 S) (hspl : ∀ i, i < numSplitters c.treebits → splOf c useCalc i = S[i]?)
+    (k : Key) : c.findBkt useCalc k = some (2 * lowerBound S k + (if S[lowerBound S k]? = some k then 1 else 0)) :=
   findBkt_bst hbst hspl k
 
-/-- what remains to be shown about the tree builder: for sorted samples `build` yields a search tree
-over its in-order splitter list, which is sorted and is what `get_splitter` returns, with
-`splitter_lcp[i]` the LCP of neighbouring splitters -/
-def build_isBST_statement : Prop :=
-  ∀ (tb : Nat) (samples : Array Key) (c : Classifier), 1 ≤ tb → samples.size = 2 * numSplitters tb →
-    samples.toList.Pairwise (fun a b => a ≤ b) → build tb samples = some c →
-    IsBST c.tree tb 1 c.splitters ∧ c.splitters.Pairwise (fun a b => a ≤ b) ∧
-      (∀ i, i < numSplitters tb → c.getSplitterCalc i = c.splitters[i]?)
--- OPEN: build_isBST_statement — the recursion of SSTreeBuilderLevelOrder writes a search tree into the level-order
---   array and `pre_to_levelorder` finds the in-order splitters in it; validated on every `classify`/`step` case of the
---   correspondence (splitters, splitter_lcp and bucket ids of the real classes vs the model), not yet proved.
+/-- **The tree builder writes a search tree.**  For sorted samples (`std::sort(samples)`) the
+recursion of `SSTreeBuilderLevelOrder` / `…PreAndLevelOrder` (middle sample as splitter, equal
+samples skipped on both sides, children at `2i`, `2i+1`) leaves a level-order array that is a search
+tree over the in-order splitter list, and that list is sorted. -/
+theorem builder_writes_search_tree {tb : Nat} {samples : Array Key} {c : Classifier} (htb : 1 ≤ tb)
+    (hsz : 1 ≤ samples.size)
+    (hsorted : ∀ (i j : Nat) (x y : Key), i ≤ j → samples[i]? = some x → samples[j]? = some y → x ≤ y)
+    (h : build tb samples = some c) :
+    c.treebits = tb ∧ IsBST c.tree tb 1 c.splitters ∧ c.splitters.Pairwise (fun a b => a ≤ b) :=
+  build_isBST htb hsz hsorted h
+
+/-- **Classification with the real builder is monotone** (what the step lemma needs about the
+buckets): explicit splitter array — every tree depth; index calculation `pre_to_levelorder` (the
+default classifier) — tree depths 1..10, the index identity being checked by evaluation per depth. -/
+theorem classification_monotone_build {tb : Nat} {samples : Array Key} {c : Classifier} {useCalc : Bool}
+    (htb : 1 ≤ tb) (hsz : 1 ≤ samples.size)
+    (hsorted : ∀ (i j : Nat) (x y : Key), i ≤ j → samples[i]? = some x → samples[j]? = some y → x ≤ y)
+    (hb : build tb samples = some c) (hcalc : useCalc = true → tb ≤ 10)
+    {k k' : Key} {b b' : Nat} (h : c.findBkt useCalc k = some b) (h' : c.findBkt useCalc k' = some b')
+    (hlt : b < b') : k < k' :=
+  build_findBkt_lt htb hsz hsorted hb hcalc h h' hlt
+
+/-- `pre_to_levelorder(i+1)` is the level-order index of the `i`-th in-order splitter, for every
+tree depth the classifier supports (`switch (treebits)` has cases 1..15) -/
+def index_ok_statement : Prop := ∀ tb, 1 ≤ tb → tb ≤ 15 → IndexOk tb
+-- OPEN: index_ok_statement — proved by evaluation for depths 1..10 (`index_ok_partial`); depths 11..15 and a
+--   general bit-level proof are missing.  Also open: `splitter_lcp[i]` = LCP of neighbouring splitters.
+theorem index_ok_partial (tb : Nat) (h1 : 1 ≤ tb) (h2 : tb ≤ 10) : IndexOk tb := indexOk_upto_10 tb h1 h2
 
 /-- **The base sorter specification is satisfiable**: `baseSort` (the model's stand-in for
 `insertion_sort`, property C03) returns a sorted permutation with exact LCPs. -/
@@ -524,8 +543,7 @@ def sortAll_correct_statement : Prop :=
     (sortAll env fuel strs = .ok r → SortedLcp strs r) ∧ sortAll env fuel strs ≠ .error .oob
 -- OPEN: sortAll_correct_statement — proved so far: the key/LCP arithmetic every step relies on (`key_*`),
 --   disjointness and order independence of the sub-job ranges; missing: `build`/`findBkt` = lower-bound
---   classification (`build_isBST_statement`; with it `classification_monotone` discharges the key order hypothesis in
---   `BucketsOk` of the step lemma), the MKQS / insertion_sort_cache lemmas and the
+--   `splitter_lcp` = LCP of neighbouring splitters (common prefix of a `<` bucket), the MKQS / insertion_sort_cache lemmas and the
 --   induction over the recursion that combines them.
 --   The model is tied to the implementation by the correspondence on order, LCPs and classifier internals.
 
